@@ -22,7 +22,7 @@ copy 0 again); the canceller resumes and paints C2 in X's list. -/
 def f2Sched : List Nat :=
   List.replicate 16 1 ++ List.replicate 10 0 ++ List.replicate 20 2 ++ List.replicate 20 0
 
-def f2Final (cnc : Bool) : St := (CtxTree ⟨false, cnc⟩ f2Reg f2Prog).run f2Sched
+def f2Final (cnc : Bool) : St := (CtxTree ⟨false, cnc, [.can]⟩ f2Reg f2Prog).run f2Sched
 
 theorem f2_witness_ascoded :
     let s := f2Final false
@@ -49,7 +49,7 @@ C1 and paints the freshly registered C2; thread 1's stale store writes 0 over it
 def staleSched : List Nat := List.replicate 11 1 ++ List.replicate 25 0 ++ List.replicate 6 1
 
 theorem stale_copy_witness :
-    let s := (CtxTree ⟨true, false⟩ [1, 0] staleProg).run staleSched
+    let s := (CtxTree ⟨true, false, [.can]⟩ [1, 0] staleProg).run staleSched
     s.pc 0 = .idle ∧ s.pc 1 = .idle ∧ s.res 0 = [true] ∧
     s.cst 2 = .bound ∧ s.par 2 = some 1 ∧ s.can 1 = true ∧ s.can 2 = false := by
   decide +kernel
@@ -60,15 +60,87 @@ def earlyProg : Nat → List Op
   | _ => []
 
 theorem early_cancel_lost_witness :
-    let s := (CtxTree ⟨true, false⟩ [0] earlyProg).run (List.replicate 30 0)
+    let s := (CtxTree ⟨true, false, [.can]⟩ [0] earlyProg).run (List.replicate 30 0)
     s.pc 0 = .idle ∧ s.res 0 = [true] ∧ s.resets 2 = 0 ∧ s.cst 2 = .bound ∧ s.can 2 = false := by
   decide +kernel
 
 /-- with both facts true the same three schedules end well (sanity of the parameterisation) -/
 theorem witnesses_repaired :
-    ((CtxTree ⟨true, true⟩ f2Reg f2Prog).run (f2Sched ++ List.replicate 30 2 ++ List.replicate 30 0)).can 5 = true ∧
-    ((CtxTree ⟨true, true⟩ [1, 0] staleProg).run staleSched).can 2 = true ∧
-    ((CtxTree ⟨true, true⟩ [0] earlyProg).run (List.replicate 30 0)).can 2 = true := by
+    ((CtxTree ⟨true, true, [.can]⟩ f2Reg f2Prog).run (f2Sched ++ List.replicate 30 2 ++ List.replicate 30 0)).can 5 = true ∧
+    ((CtxTree ⟨true, true, [.can]⟩ [1, 0] staleProg).run staleSched).can 2 = true ∧
+    ((CtxTree ⟨true, true, [.can]⟩ [0] earlyProg).run (List.replicate 30 0)).can 2 = true := by
+  decide +kernel
+
+/-! ### a `reset` that also clears my_may_have_children (`resetSeq = [.can, .mhc]`), everything else repaired -/
+
+/-- sequential: P (context 1) gets a child (context 2, bound beneath it: e.g. a long-lived inner task_group first used
+inside a task of P); the work completes and P is reset; P is used again and cancelled.  The reset cleared P's hint, so the
+second `cancel_group_execution` returns at the hint test and the child is never reached. -/
+def hintProg : Nat → List Op
+  | 0 => [.bind 1 none, .bind 2 (some 1), .reset 1, .cancel 1]
+  | _ => []
+
+def hintSched : List Nat := List.replicate 40 0
+
+theorem hint_cleared_witness :
+    let s := (CtxTree ⟨true, true, [.can, .mhc]⟩ [0] hintProg).run hintSched
+    s.pc 0 = .idle ∧ s.res 0 = [true] ∧ s.misuse 0 = false ∧ s.cst 2 = .bound ∧ s.par 2 = some 1 ∧
+      s.par 1 = none ∧ s.wst 1 = 2 ∧ s.rst 1 = 1 ∧ s.rst 2 = 0 ∧ s.can 1 = true ∧ s.can 2 = false ∧ s.mhc 1 = false ∧
+      s.oc 1 = false ∧ s.oc 2 = false := by
+  decide +kernel
+
+/-- the full round trip (cancel, leaf-first resets, cancel again) with the same faulty reset -/
+def hintProg2 : Nat → List Op
+  | 0 => [.bind 1 none, .bind 2 (some 1), .cancel 1, .reset 2, .reset 1, .cancel 1]
+  | _ => []
+
+theorem hint_cleared_witness2 :
+    let s := (CtxTree ⟨true, true, [.can, .mhc]⟩ [0] hintProg2).run (List.replicate 60 0)
+    s.pc 0 = .idle ∧ s.res 0 = [true, true] ∧ s.misuse 0 = false ∧ s.cst 2 = .bound ∧ s.par 2 = some 1 ∧
+      s.can 1 = true ∧ s.can 2 = false := by
+  decide +kernel
+
+/-- as coded (`reset` stores only the cancellation flag) both programs end with the child cancelled -/
+theorem hint_kept_witness :
+    ((CtxTree ⟨true, true, [.can]⟩ [0] hintProg).run (List.replicate 40 0)).can 2 = true ∧
+    ((CtxTree ⟨true, true, [.can]⟩ [0] hintProg2).run (List.replicate 60 0)).can 2 = true ∧
+    ((CtxTree ⟨true, true, [.can]⟩ [0] hintProg2).run (List.replicate 60 0)).res 0 = [true, true] := by
+  decide +kernel
+
+/-! ### dynamic registry: a thread that leaves while contexts it bound are still in use (repaired protocol) -/
+
+/-- thread 0 binds the root context 1; thread 1 binds context 2 beneath it (2 is registered in thread 1's list) and exits:
+unregister_thread removes its thread_data from the registry, ~thread_data orphans its (non-empty) context list; thread 0
+then cancels context 1: the call wins and walks the lists of the registered threads — thread 0's only. -/
+def orphProg : Nat → List Op
+  | 0 => [.bind 1 none, .cancel 1]
+  | 1 => [.bind 2 (some 1), .exit]
+  | _ => []
+
+def orphSched : List Nat := List.replicate 4 0 ++ List.replicate 14 1 ++ List.replicate 20 0
+
+theorem orphan_witness :
+    let s := (CtxTree ⟨true, true, [.can]⟩ [1, 0] orphProg).run orphSched
+    s.pc 0 = .idle ∧ s.pc 1 = .idle ∧ s.res 0 = [true] ∧ s.misuse 0 = false ∧ s.misuse 1 = false ∧
+      s.cst 2 = .bound ∧ s.par 2 = some 1 ∧ s.par 1 = none ∧ s.wst 1 = 1 ∧ s.rst 1 = 0 ∧ s.rst 2 = 0 ∧
+      s.can 1 = true ∧ s.can 2 = false ∧ s.act 1 = false ∧ s.orph 1 = true ∧ s.oc 2 = true ∧ s.lst 2 = some 1 := by
+  decide +kernel
+
+/-- a thread that registers during the run, after a propagation (its fresh list has epoch 0 while the global epoch is 1),
+and binds a context beneath the already cancelled context: the epoch comparison sends the binder to the locked re-copy
+and the context ends cancelled -/
+def lateProg : Nat → List Op
+  | 0 => [.bind 1 none, .bind 2 (some 1), .cancel 1]
+  | 1 => [.register, .bind 3 (some 2)]
+  | _ => []
+
+def lateSched : List Nat := List.replicate 40 0 ++ List.replicate 20 1
+
+theorem late_register_witness :
+    let s := (CtxTree ⟨true, true, [.can]⟩ [1, 0] lateProg).run lateSched
+    s.pc 0 = .idle ∧ s.pc 1 = .idle ∧ s.res 0 = [true] ∧ s.misuse 1 = false ∧ s.act 1 = true ∧ s.joined 1 = 1 ∧
+      s.epoch 1 = 0 ∧ s.G = 1 ∧ s.cst 3 = .bound ∧ s.par 3 = some 2 ∧ s.lst 3 = some 1 ∧ s.can 1 = true ∧
+      s.can 2 = true ∧ s.can 3 = true ∧ s.oc 3 = false := by
   decide +kernel
 
 end TbbVerif.C04
